@@ -50,6 +50,8 @@ pub enum SectionKind {
     RenamedBinary,
     /// `git diff --no-index A B` on binary files: two-name diff line followed only by index + Binary
     TwoNameBinary,
+    /// `diff.submodule = log`: "Submodule path 123..456:" followed by commit summary lines
+    SubmoduleLog,
 }
 
 pub const ALL_SECTION_KINDS: &[SectionKind] = &[
@@ -69,6 +71,7 @@ pub const ALL_SECTION_KINDS: &[SectionKind] = &[
     SectionKind::CombinedBinary,
     SectionKind::RenamedBinary,
     SectionKind::TwoNameBinary,
+    SectionKind::SubmoduleLog,
 ];
 
 #[derive(Clone, Copy, Debug, PartialEq, Eq, Serialize, Deserialize)]
@@ -328,7 +331,13 @@ impl<'a> Gen<'a> {
             let last = h == nh - 1;
             let ec = if last { ends_changed } else { self.rng.chance(1, 3) };
             let (o, n) = self.hunk_body(p, section, h, prefix_len, only, ec);
-            let frag = if self.rng.chance(1, 2) { " fn section_marker()" } else { "" };
+            // half of the hunk headers carry a code fragment with a token of their own: once a line
+            // of the hunk has been delivered the header must be out (unless the style hides it)
+            let header_token = if self.rng.chance(1, 2) { Some(self.token()) } else { None };
+            let frag = match &header_token {
+                Some(t) => format!(" fn {}()", t),
+                None => String::new(),
+            };
             let hdr = match only {
                 Some(LineKind::Plus) => format!("@@ -0,0 +1,{} @@", n),
                 Some(LineKind::Minus) => format!("@@ -1,{} +0,0 @@", o),
@@ -341,6 +350,9 @@ impl<'a> Gen<'a> {
                 }
             };
             self.lines[idx].text = hdr;
+            if only.is_none() {
+                self.lines[idx].token = header_token;
+            }
             old_start += o + self.rng.range(5, 40);
             new_start += n + self.rng.range(5, 40);
         }
@@ -418,6 +430,16 @@ impl<'a> Gen<'a> {
                 let h3 = self.hex(7);
                 meta(self, format!("index {},{}..{}", h1, h3, h2));
                 meta(self, "Binary files differ".into());
+                return;
+            }
+            SubmoduleLog => {
+                let (c1, c2) = (self.hex(7), self.hex(7));
+                meta(self, format!("Submodule {} {}..{}:", a, c1, c2));
+                meta(self, "  > add the new thing".into());
+                meta(self, "  > fix the old thing".into());
+                if self.rng.chance(1, 2) {
+                    meta(self, "  < dropped experiment".into());
+                }
                 return;
             }
             TwoNameBinary => {
@@ -512,7 +534,7 @@ impl<'a> Gen<'a> {
                 meta(self, "new file mode 100644".into());
                 meta(self, "index 0000000..e69de29".into());
             }
-            CombinedModified | CombinedBinary | RenamedBinary | TwoNameBinary => {}
+            CombinedModified | CombinedBinary | RenamedBinary | TwoNameBinary | SubmoduleLog => {}
         }
     }
 
